@@ -54,7 +54,8 @@ def sysroot():
 
 
 def ensure_driver():
-    if not os.path.exists(DRIVER):
+    src = os.path.join(VERIF, 'driver', 'src', 'main.rs')
+    if not os.path.exists(DRIVER) or (os.path.exists(src) and os.path.getmtime(src) > os.path.getmtime(DRIVER)):
         r = sh('cargo build --release --offline', cwd=os.path.join(VERIF, 'driver'))
         if r.returncode != 0 or not os.path.exists(DRIVER):
             raise InfraError('driver build failed:\n' + r.stdout[-3000:])
